@@ -720,7 +720,9 @@ def conform(item: dict[str, Any], res: Result) -> None:
     box: dict[str, Any] = {}
     run_once(build(item, box), [], POLICY)
     vobs: Obs = box["obs"]
-    virt = [(o[0], o[4], o[5] if len(o) > 5 and isinstance(o[5], bytes) else None) for o in vobs.ops]
+    virt: list[Any] = [(o[0], o[4], o[5] if len(o) > 5 and isinstance(o[5], bytes) else None) for o in vobs.ops]
+    if vobs.connect and vobs.connect[0] != "ok":
+        virt = [("connect", "exc:" + vobs.connect[1], None)]
     vwire = make_proto(item).parse_wire(b"".join(d for _, d in vobs.wire))
 
     proto = make_proto(item)
@@ -768,12 +770,18 @@ def conform(item: dict[str, Any], res: Result) -> None:
             pass
         return ops
 
-    real, conns = run_real(lambda n: gw if n == 0 else None, client, gap=0.02, timeout=60.0)
+    try:
+        real, conns = run_real(lambda n: gw if n == 0 else None, client, gap=0.02, timeout=60.0)
+    except Exception as e:  # noqa: BLE001  (only a seeded/real defect can get here; finish() decides)
+        real, conns = [("harness", "exc:" + type(e).__name__, None)], []
     rwire = proto.parse_wire(bytes(conns[0].wire)) if conns else []
     res.count("conformance_replays")
     res.count("executions")
     if real != virt or rwire != vwire:
-        raise RuntimeError(f"environment model disagrees with real sockets for {item}: virtual {virt} / {vwire} real {real} / {rwire}")
+        # not a verdict about gallia: reported as BROKEN by finish() unless the exploration itself found violations
+        # (a seeded defect may well behave differently on kernel-chosen segment boundaries)
+        res.count("conformance_disagreements")
+        res.notes.setdefault("conformance_disagreement_samples", []).append(f"{item}: virtual {virt} / {vwire} real {real} / {rwire}"[:600])
 
 
 def replay_doc(doc: dict[str, Any], pid: str) -> Result:
